@@ -34,6 +34,33 @@ def _leaves(t):
     ]
 
 
+def _families(t) -> dict[str, list]:
+    """Leaf constructors with every combination of their fields (labels 'Fam<ctor>:<fields>')."""
+    B = t.BoundaryType  # noqa: N806
+    fam: dict[str, list] = {"Bnd": [], "Lit": [], "Enum": [], "Named": [], "TVar": []}
+    for base, lo, hi, li, hi_i in itertools.product(("int", "float"), (B.NEGATIVE_INFINITY, 0), (1, B.INFINITY), (False, True), (False, True)):
+        lab = f"Bnd:{base}{'c' if li else 'o'}{'NegInf' if lo == B.NEGATIVE_INFINITY else '0'}to{'Inf' if hi == B.INFINITY else '1'}{'c' if hi_i else 'o'}"
+        fam["Bnd"].append((lab, lambda base=base, lo=lo, hi=hi, li=li, hi_i=hi_i: B(base, lo, hi, li, hi_i)))
+    values = [1, True, "1", None, 1.5, 0, False]
+    names = {1: "i1", True: "T", "1": "s1", None: "N", 1.5: "f", 0: "i0", False: "F"}
+    reprs = ["i1", "T", "s1", "N", "f", "i0", "F"]
+    for i, v in enumerate(values):
+        fam["Lit"].append((f"Lit:fam{reprs[i]}", lambda v=v: t.LiteralType([v])))
+    for (i, v), (j, w) in itertools.permutations(list(enumerate(values)), 2):
+        fam["Lit"].append((f"Lit:fam{reprs[i]}{reprs[j]}", lambda v=v, w=w: t.LiteralType([v, w])))
+    del names
+    for vals in (frozenset(), frozenset({"a"}), frozenset({"b"}), frozenset({"a", "b"})):
+        for fm in ("", "{'a'}", "x"):
+            fam["Enum"].append((f"Enum:fam{''.join(sorted(vals)) or 'e'}{len(fm)}", lambda vals=vals, fm=fm: t.EnumType(vals, fm)))
+    for n, q in (("A", "pk.m.A"), ("A", "pk.n.A"), ("B", "pk.m.A"), ("A", ""), ("int", "builtins.int")):
+        fam["Named"].append((f"Named:fam{n}{len(q)}{q[3:4]}", lambda n=n, q=q: t.NamedType(n, q)))
+    for n in ("T", "U"):
+        fam["TVar"].append((f"TVar:fam{n}", lambda n=n: t.TypeVarType(n)))
+        fam["TVar"].append((f"TVar:fam{n}int", lambda n=n: t.TypeVarType(n, t.NamedType("int", "builtins.int"))))
+        fam["TVar"].append((f"TVar:fam{n}A", lambda n=n: t.TypeVarType(n, t.NamedType("A", "pk.m.A"))))
+    return fam
+
+
 def _constructors(t):
     """(name, arities, build(children))"""
     return [
@@ -146,11 +173,12 @@ def run(rep: Report, tier: str, seed: int) -> None:
     rep.rule = (
         "all type terms over 16 leaves and 9 composite constructors: depth<=1 complete (arity<=2, callable<=2 params"
         " [quick] / <=3 [thorough]); depth 2 with unary inner terms (slice in quick, complete in thorough); all ordered"
-        " pairs of depth<=1 terms within one constructor class plus all cross-class leaf pairs; distinct = distinct term label"
+        " pairs of depth<=1 terms within one constructor class plus all cross-class leaf pairs; leaf families (all 32 BoundaryType field combinations, 49 one/two-value literals over {1,True,'1',None,1.5,0,False}, 12 enums, 5 named, 6 type variables)"
+        " with the single-term laws and all ordered pairs inside each family; distinct = distinct term label"
     )
     terms = []
-    for lab, mk, depth in enumerate_terms(t, tier):
-        terms.append((lab, mk, depth))
+
+    def single(lab, mk, depth) -> None:  # noqa: ANN001
         rep.case(lab, True, sample=lab if depth == 1 and len(rep.samples) < 4 else None)
         x = mk()
         # (3) reflexive
@@ -176,13 +204,13 @@ def run(rep: Report, tier: str, seed: int) -> None:
             d = x.to_dict()
         except Exception as e:  # noqa: BLE001
             _law(rep, "to_dict-total", False, lab, {"exception": repr(e)})
-            continue
+            return
         rep.ok("to_dict-total")
         try:
             y = A.from_dict(d)
         except Exception as e:  # noqa: BLE001
             _law(rep, "roundtrip-eq", False, lab, {"exception": repr(e), "dict": repr(d)[:300]})
-            continue
+            return
         try:
             _law(rep, "roundtrip-eq", y == x and x == y, lab, {"dict": repr(d)[:300], "parsed": repr(y)[:300]})
         except Exception as e:  # noqa: BLE001
@@ -204,6 +232,10 @@ def run(rep: Report, tier: str, seed: int) -> None:
             rep.ok("json-serialisable")
         except Exception as e:  # noqa: BLE001
             _law(rep, "json-serialisable", False, lab, {"exception": repr(e)})
+
+    for lab, mk, depth in enumerate_terms(t, tier):
+        terms.append((lab, mk, depth))
+        single(lab, mk, depth)
 
     # pairs
     shallow = [(lab, mk) for lab, mk, depth in terms if depth <= 1]
@@ -235,6 +267,17 @@ def run(rep: Report, tier: str, seed: int) -> None:
     for (la, _, a), (lb, _, b) in itertools.product(leaves_only, repeat=2):
         if la.split(":")[0] != lb.split(":")[0]:
             pair(la, a, lb, b)
+    # leaf families: every combination of the fields of one leaf constructor, single laws + all ordered pairs within the family
+    fam_terms = 0
+    for fam, members in _families(t).items():
+        built = []
+        for lab, mk in members:
+            single(lab, mk, 0)
+            built.append((lab, mk()))
+            fam_terms += 1
+        for (la, a), (lb, b) in itertools.product(built, repeat=2):
+            pair(la, a, lb, b)
+    rep.extra["family_terms"] = fam_terms
     # (7) order-insensitive equality implies order-insensitive hash: [a,b] vs [b,a] are in the same class above, so
     # eq-implies-hash covers it; count how many such permuted pairs were equal to show the clause is not vacuous
     rep.extra["pairs_compared"] = npairs
